@@ -189,7 +189,7 @@ impl Property for C45w {
         ]
     }
     fn run(&self, case: &Case) -> CaseResult {
-        run_case(case)
+        crate::foreign(|| run_case(case))
     }
     fn extra(&self, _tier: Tier, _seed: u64) -> Result<Value, (String, Case)> {
         let st = stats().lock().map(|m| m.clone()).unwrap_or_default();
@@ -214,6 +214,7 @@ fn run_case(case: &Case) -> CaseResult {
         return CaseResult::discard("malformed case");
     }
     bump(name, 0);
+    crate::set_current_case("c45w", case);
     let mut labels: Vec<String> = vec![];
     let takes_value = VALUE_FNS.contains(&name);
     let sig = format!("{name}({}{}{}){}{}", if takes_value { case.ty.short() } else { String::new() }, case.n_lit.map(|x| format!(", {x}")).unwrap_or_default(), case.default.as_ref().map(|d| format!(", {d:?}")).unwrap_or_default(), if case.ignore_nulls { " IGNORE NULLS" } else { "" }, if case.is_reversed { " reversed" } else { "" });
